@@ -25,8 +25,8 @@ struct osm_state osm;
 #define PIPEFDS  (BIT(2 * OSM_MAXCHILD) - 1u)
 #define WRITE_ENDS (0xaaaaaaaau & PIPEFDS)
 
-static int
-pop32(unsigned m)
+int
+osm_pop32(unsigned m)
 {
 	m = (m & 0x55555555u) + (m >> 1 & 0x55555555u);
 	m = (m & 0x33333333u) + (m >> 2 & 0x33333333u);
@@ -72,31 +72,31 @@ osm_livemask(void)
 int
 osm_nlive(void)
 {
-	return pop32(osm_livemask());
+	return osm_pop32(osm_livemask());
 }
 
 int
 osm_nchild(void)
 {
-	return pop32(osm.spawned);
+	return osm_pop32(osm.spawned);
 }
 
 int
 osm_term_missing(void)
 {
-	return pop32(osm.term_due & ~osm.termed);
+	return osm_pop32(osm.term_due & ~osm.termed);
 }
 
 int
 osm_write_ends_open(void)
 {
-	return pop32(osm.fd_open & WRITE_ENDS);
+	return osm_pop32(osm.fd_open & WRITE_ENDS);
 }
 
 int
 osm_nopen(void)
 {
-	return pop32(osm.fd_open);
+	return osm_pop32(osm.fd_open);
 }
 
 int
@@ -114,7 +114,7 @@ osm_was_unlinked(const char *path)
 int
 osm_tmp_left(void)
 {
-	return osm.ntmp - pop32(osm.tmp_unlinked);
+	return osm.ntmp - osm_pop32(osm.tmp_unlinked);
 }
 
 /* the driver learns of a failure: the stages still running from now on have to be terminated */
@@ -225,7 +225,7 @@ osm_posix_spawnp(pid_t *pid, const char *file, const posix_spawn_file_actions_t 
 	}
 	/* descriptors that are open and not close-on-exec are inherited under their own number */
 	newchild(a, pid, (char **)argv, n, file, fa ? osm.fa_in : -1, fa ? osm.fa_out : -1, inp, outp,
-	         pop32(osm.fd_open & ~osm.fd_cloexec));
+	         osm_pop32(osm.fd_open & ~osm.fd_cloexec));
 	if (pid)
 		*pid = osm_tape.pidbase + a;
 	return 0;
@@ -515,6 +515,20 @@ void
 osm_fatal(void)
 {
 	osm_exit(1);                                    /* util.c: fatal() prints and calls exit(1) */
+}
+
+/* stands for util.c's fatal() where a unit replaces it (replace_calls): memory exhaustion ends the run */
+void
+osm_oom(const char *fmt, ...)
+{
+	(void)fmt;
+#ifdef VERIF_REPLAY
+	fprintf(stderr, "replay: real code left through util.c fatal()\n");
+	fflush(0);
+	_Exit(78);
+#else
+	__CPROVER_assume(0);
+#endif
 }
 
 void
